@@ -89,6 +89,47 @@ def owned_strings(P, R, H, rule='C11.OWN.1'):
     R.floor(rule, 4, 'string members of a compiled rule')
 
 
+def zeroed_entries(P, R, H, rule='C11.MPT.4'):
+    """A freshly compiled rule has no criteria it was not given: members of a rule entry that the compile pass stores
+    only when the item exists (the address and its length, trust_username) start out as zero because the new table's
+    storage comes from a zero-filling allocation.  Storage that is merely allocated keeps what an earlier table left in
+    the reused block, and a rule that lost its `address` item keeps the old restriction."""
+    # members stored conditionally (guarded by "the item exists") inside the compile loop
+    cond = set()
+    for s in H.stores():
+        lhs = s.ev.get('lhs') or {}
+        if s.ev['k'] == 'store' and lhs.get('k') == 'mem' and lhs.get('rec') == RULE_REC:
+            if any(is_var(g[0]) and g[1] == '!=' and const_of(g[2]) == 0 for g in H.guards(s.bid)):
+                cond.add(lhs.get('field'))
+    for s in H.calls():
+        for a in s.ev['args']:
+            if isinstance(a, dict) and a.get('k') == 'un' and a.get('op') == '&' and isinstance(a.get('e'), dict) and a['e'].get('k') == 'mem' and a['e'].get('rec') == RULE_REC:
+                if any(is_var(g[0]) and g[1] == '!=' and const_of(g[2]) == 0 for g in H.guards(s.bid)):
+                    cond.add(a['e'].get('field'))
+    if not cond:
+        R.note('%s: every member of a rule entry is stored unconditionally; zero-filled storage not needed' % rule)
+        return
+    zeroing = {'calloc'}
+    for name in ('xmalloc',):
+        f = P.fn(name)
+        if f is not None and any(t.ev.get('callee') == 'calloc' or any(x.get('k') == 'callref' and x.get('callee') == 'calloc' for ex in rules.event_exprs(t.ev) for x in walk(ex)) for t in f.sites()):
+            zeroing.add(name)
+    n = 0
+    for s in H.calls():
+        c = s.ev.get('callee') or ''
+        if not c.endswith('_init'):
+            continue
+        g = P.direct_target(H, c)
+        if g is None:
+            continue
+        for t in g.stores():
+            if t.ev['k'] == 'store' and is_field(t.ev.get('lhs'), 'vec') and (t.ev.get('rhs') or {}).get('k') == 'callref':
+                n += 1
+                R.ob(rule, t.ev['rhs'].get('callee') in zeroing, t, 'the new rule table is zero-filled (%s): members stored only when their item exists (%s) start out as "not given"' % (t.ev['rhs'].get('callee'), ', '.join(sorted(x for x in cond if x))),
+                     key='zeroed-table')
+    R.floor(rule, 1, 'allocation of the new rule table')
+
+
 def comparator(P, R):
     cmp = P.need_fn('conf_object_cmp')
     first = None
@@ -509,6 +550,7 @@ def run(P, R, tier):
     ok_recorded(P, R)
     H = compile_pass(P, R)
     owned_strings(P, R, H)
+    zeroed_entries(P, R, H)
     # every rule object of the section is compiled: a non-rule entry is skipped, it does not end the pass
     nn = rules.full_traversal(P, R, 'C11.MPT.3', H, lambda c: any(is_var(x) and x.get('t', '').startswith('struct set_node') for x in walk(c)) and const_of((rel(c, True) or [None, None, None])[2]) == 0,
                               'rule compilation over the section\'s entries')
